@@ -25,7 +25,8 @@ RULE = (
     "have been pulled. Non-trivial = some token is handed over strictly before the end of the stream "
     "with >= 2 frames still unread."
 )
-MUST_HIT = ["prefix_cut_inside_token", "flush_shorter_token", "handed_before_eos", "audio_lazy"]
+MUST_HIT = ["prefix_cut_inside_token", "flush_shorter_token", "handed_before_eos", "audio_lazy", "audio_overlapping_reader",
+            "long_stream_sampled_prefixes"]
 ASSUMPTIONS = ["read-counting harness source (vf/tok.ListSource)"]
 
 BOUNDS = {
@@ -96,7 +97,18 @@ def check_case(case, rec):
     if late != T:
         raise Violation(f"generator requested, another stream tokenized, generator consumed: {late}, list mode {T}", case)
     classes.add("late_generator")
-    for plen in range(0, n + 1):
+    if n <= 130:
+        plens = range(0, n + 1)
+    else:
+        # long stream: prefixes around every token boundary plus an even sample
+        pl = {0, n}
+        for s_, e_ in T:
+            pl.update(range(max(s_ - 1, 0), min(s_ + 2, n) + 1))
+            pl.update(range(max(e_ - 1, 0), min(e_ + ms + 3, n) + 1))
+        pl.update(range(0, n + 1, max(n // 40, 1)))
+        plens = sorted(pl)[:160]
+        classes.add("long_stream_sampled_prefixes")
+    for plen in plens:
         _f, _s, tp, _a = _run(pat[:plen], p, tok.DELIVS[plen % 3])
         Tp = tok.spans(tp)
         if len(Tp) > len(T):
@@ -132,13 +144,14 @@ def explicit_cases():
         {"pat": "0111011100011", "p": [2, 4, 1, 0, 0, 0]},
         {"pat": "0111011100011", "p": [2, 4, 1, 0, 0, 6]},
         {"pat": "110100", "p": [1, 6, 2, 0, 0, 4]},
+        {"pat": "0" * 3 + "1" * 256 + "0" + "1" * 300 + "0" * 5 + "1" * 20, "p": [2, 257, 1, 0, 0, 0]},
     ] + c08_audio.explicit_cases()
 
 
 @st.composite
 def _case(draw, maxmax, maxlen):
     p = draw(gen.tok_params(maxmax))
-    return {"pat": draw(gen.pattern(p, maxlen)), "p": p}
+    return {"pat": draw(gen.pattern(p, maxlen if p[1] <= 64 else 3 * p[1] + 20)), "p": p}
 
 
 def jobs(tier, seed):
